@@ -417,6 +417,8 @@ RT_ATOMISTIC = [
     'a:c r:1 a:c a:c ( a:C ) a:c a:c a:c r:1', 'a:C a:C ( a:C ( a:O ) ) a:N', 'A:13CH3 a:C', 'a:O b:= a:C a:O',
     'a:N b:# a:C a:C', 'A:H a:C', 'a:C ( A:H ) a:O', 'a:c r:1 a:c a:c A:n+ ( a:C ) a:c a:c r:1', 'a:C a:P ( b:= a:O ) ( a:O ) a:O',
     'a:C a:C r:1 a:C a:C r:2 a:C a:C r:1 a:C a:C r:2',
+    # three rings whose ring bonds interleave (1 opens, 2 opens, 1 closes, 3 opens before 2 closes): marker re-use
+    'a:C r:1 a:C r:2 a:C a:C r:1 a:C r:3 a:C a:C r:2 a:C a:C r:3', 'a:C r:1 a:C r:2 a:C r:1 a:C r:3 a:C r:2 a:C r:3',
     # explicit hydrogens that are kept only because they are annotated (the writer writes them as plain [H])
     'A:H:0.1 a:C', 'a:C ( A:H:0.5 ) a:O', 'a:C a:O A:C:0.5 ( A:H:0.1 ) A:H:0.2',
     # a SINGLE bond between two aromatic atoms that closes a ring (biphenylene, fluorene): it needs its '-'
